@@ -21,10 +21,13 @@ ENTRY = ['import bs4', 'from bs4 import BeautifulSoup', 'import bs4.element', 'i
          'from soupsieve import select', 'import soupsieve.css_match', 'import soupsieve.css_parser',
          'import soupsieve.css_types', 'from soupsieve import *', 'from bs4 import *']
 MARKUP = ('<!DOCTYPE html><html lang="en"><head><title>t</title></head><body><!--c--><div id="a"><p class="x">one</p><p>two<span lang="en">s</span></p>'
-          '<p id="e"><!-- only a comment --></p><p id="pi"><?pi x?></p><input type="checkbox" checked><i></i></div><!--tail--></body></html>')
+          '<p id="e"><!-- only a comment --></p><p id="pi"><?pi x?></p><input type="checkbox" checked><i></i></div><!--tail-->'
+          '<style>p { color: red }</style><script>var s = "color";</script><template><b>color</b></template><textarea>color</textarea>'
+          '<style id="es"></style><script id="ej"></script></body></html>')
 # one selector per mechanism whose answer could depend on what was bound when soupsieve was imported
 SELS = ['div > p:nth-child(2) span:lang(en), :checked, p.x:-soup-contains(one)', ':empty', ':root', 'p:-soup-contains-own(comment)', ':-soup-contains(pi)',
-        'p:not(:empty)', ':root > body', ':is(p, i):last-child', ':default', ':dir(ltr)', '[id]', ':nth-last-of-type(1)', 'html:has(> body i:empty)']
+        'p:not(:empty)', ':root > body', 'style:-soup-contains("color"), script:-soup-contains-own("color"), template:-soup-contains("color")', 'style:empty, script:empty',
+        ':-soup-contains-own("color")', 'body :not(:-soup-contains("color"))', ':is(p, i):last-child', ':default', ':dir(ltr)', '[id]', ':nth-last-of-type(1)', 'html:has(> body i:empty)']
 
 NSDOC = ('<r xmlns:xlink="http://www.w3.org/1999/xlink" xmlns:o="urn:o"><a xlink:href="#1" o:k="v">x</a><a href="#2">y</a><o:a xlink:href="#3"/>'
          '<b xml:lang="en"><a/></b></r>')
